@@ -333,17 +333,42 @@ theorem early_close_epipe (c : Cfg) (s : Sys α) (k : Nat) (_hk : 1 ≤ k)
 
 /-! ### the `read` built-in -/
 
-/-- `IFS= read -r` on a line of ASCII bytes: the value is the line, byte for byte, the newline is
-    consumed and exactly the rest of the input is left for the next reader.
-    (`_partial`: proved for lines of ASCII bytes.  The full statement — the same for every line
-    `utf8 cs` with `'\n' ∉ cs` — needs the byte-range facts of `String.utf8EncodeChar`, which are not
-    proved here; multi-byte lines are compared in the run (`hd` cases with `rd=read`).) -/
+/-- ★ `IFS= read -r` on a pipe or file holding `utf8 line ++ "\n" ++ rest`, for **every** line of
+    characters without a newline (1- to 4-byte characters alike): the value assigned is the line
+    byte for byte, the status is 0 (3 = read error if the line contains a NUL), the newline is consumed
+    and exactly `rest` is left for the next reader. -/
+theorem read_raw_line (cs : List Char) (rest : List UInt8) (h : '\n' ∉ cs) :
+    readBuiltin true (utf8 cs ++ 10 :: rest) =
+      (if (utf8 cs).contains 0 then 3 else 0, if (utf8 cs).contains 0 then [] else utf8 cs, rest) := by
+  unfold readBuiltin
+  have hl := utf8_length_ge cs
+  rw [readLine_raw_utf8 cs rest [] h _ (by simp only [List.length_append, List.length_cons]; omega)]
+  simp only [List.nil_append]
+  split <;> simp_all
+
+/-- the ASCII instance of `read_raw_line` stated on bytes (kept from the previous round) -/
 theorem read_raw_line_partial (line rest : List UInt8) (h : ∀ b ∈ line, b < 0x80 ∧ b ≠ 10) :
     readBuiltin true (line ++ 10 :: rest) = (if line.contains 0 then 3 else 0, if line.contains 0 then [] else line, rest) := by
   unfold readBuiltin
   rw [readLine_raw_ascii line rest [] h _ (by simp only [List.length_append, List.length_cons]; omega)]
   simp only [List.nil_append]
   split <;> simp_all
+
+/-- ★ The decoded line does not depend on how many bytes each `read(2)` returned: a reader that takes
+    the first byte of a character alone and asks for all remaining bytes at once, adding the count
+    each call actually returned (`len += count`), produces — for every input, raw or not, and every
+    schedule of short reads (`shorts`: how many bytes the pipe holds at each call, any numbers) —
+    exactly the result of the byte-by-byte reader.  (The round-3 regression assumed `len = end`,
+    i.e. that a request is always filled: that is precisely what fails when a character straddles
+    what the writer has supplied so far.) -/
+theorem read_line_chunking_irrelevant (raw : Bool) (fuel : Nat) (input acc : List UInt8) (shorts : List Nat) :
+    readLineChunked raw fuel input acc shorts = readLine raw fuel input acc :=
+  readLineChunked_eq raw fuel input acc shorts
+
+/-- … because collecting `need` bytes by short reads consumes exactly the next `need` bytes -/
+theorem short_reads_collect_prefix (need : Nat) (input : List UInt8) (shorts : List Nat) :
+    (gather need input shorts).1 = input.take need ∧ (gather need input shorts).2.1 = input.drop need :=
+  gatherF_spec need need input shorts (Nat.le_refl _)
 
 /-! ### descriptor choreography: the child really is connected to the pipe, whatever is open -/
 
@@ -552,5 +577,13 @@ example :
   decide
 
 example : ∃ c ∈ "[東京] 😀 ok\n".toList, 2 ≤ c.utf8Size := ⟨'東', by decide, by decide⟩
+
+/-- a 3-byte character whose bytes arrive one per `read(2)` (the pipe held only the lead byte and one
+    continuation byte when the reader asked): same line as when everything is there -/
+example :
+    let input := utf8 "a東b\n".toList
+    readLineChunked true 10 input [] [1, 1, 1, 1, 1, 1] = readLineChunked true 10 input [] [9, 9, 9] ∧
+    readLineChunked true 10 input [] [1, 1, 1, 1, 1, 1] = .line (utf8 "a東b".toList) true [] := by
+  decide
 
 end YashModel.Pipe
